@@ -8,7 +8,40 @@ from harness import tlc
 WORK = tlc.WORK
 
 
+MAX_BATCH_BYTES = 6_000_000
+
+
 def validate(spec, traces, steps_of, cfg=None, workers=8, timeout=3000, tag=None, extra_env=None, heap="6g"):
+    """Validate a batch; large batches are split into several TLC runs (a 40 MB JSON file made TLC's Json module
+    fail).  Returns (fails, result) with trace ids relative to `traces`; the counters of the returned result are
+    summed over the runs."""
+    sizes = [len(json.dumps(t)) for t in traces]
+    if sum(sizes) <= MAX_BATCH_BYTES or len(traces) <= 1:
+        return _validate_one(spec, traces, steps_of, cfg, workers, timeout, tag, extra_env, heap)
+    chunks, cur, cur_size, start = [], [], 0, 0
+    for i, (t, sz) in enumerate(zip(traces, sizes)):
+        if cur and cur_size + sz > MAX_BATCH_BYTES:
+            chunks.append((start, cur))
+            cur, cur_size, start = [], 0, i
+        cur.append(t)
+        cur_size += sz
+    if cur:
+        chunks.append((start, cur))
+    all_fails, total = [], None
+    for (off, chunk) in chunks:
+        fails, res = _validate_one(spec, chunk, steps_of, cfg, workers, timeout, tag, extra_env, heap)
+        all_fails += [(f[0], f[1] + off) + tuple(f[2:]) for f in fails]
+        if total is None:
+            total = res
+        else:
+            total.generated += res.generated
+            total.distinct += res.distinct
+            total.wall += res.wall
+            total.prints += res.prints
+    return all_fails, total
+
+
+def _validate_one(spec, traces, steps_of, cfg=None, workers=8, timeout=3000, tag=None, extra_env=None, heap="6g"):
     """Run trace spec `spec` over `traces` (a JSON-serialisable list).
 
     steps_of(trace) -> number of steps TLC takes for that trace; used to verify that every
